@@ -33,6 +33,9 @@ IMPORTS = {
     # a class named like a class of another module that stubs import (fxh.Outer): `Outer` from M1 at runtime while the stub
     # brings `Outer` from M2 and another name from M1
     "from_twinmod_Outer": ("from twinmod import Outer", "Outer.Nested.__name__"),
+    # an ALIASED from-import of a module from which the stub brings another name: libcst merges that name into this statement
+    # and the confinement pass takes it out again - the alias must survive the rebuild
+    "from_twinmod_Outer_as": ("from twinmod import Outer as TO", "TO.Nested.__name__"),
     # a name imported explicitly and THEN a star import of the same module
     # a parenthesised from-import with an inline comment inside the statement
     "from_fxh_paren_comment": ("from fxh import (\n    Other,  # the odd one out\n    DD,\n)", "DD.__name__"),
@@ -112,6 +115,15 @@ def source(draw):
             f0 = fs[0]
             f0["traced"] = True
             f0["ret_traced"] = 16
+            if f0["ps"]:
+                f0["ps"][0]["traced"] = 17
+            else:
+                f0["ps"] = [dict(name="p0", default=None, anno=None, traced=17)]
+    if "from_twinmod_Outer_as" in imps and "from_twinmod_Outer" not in imps:
+        fs = [it for kind, it in items if kind == "func"] + [m for kind, it in items if kind == "class" for m in it["methods"] if m["method"] != "property"]
+        if fs:
+            f0 = fs[0]
+            f0["traced"] = True
             if f0["ps"]:
                 f0["ps"][0]["traced"] = 17
             else:
